@@ -1,8 +1,18 @@
 #!/bin/bash
-# Run once after a fresh restore (offline): full Coq build, extraction + OCaml model driver, harness build.
-set -e
+# Run once after a fresh restore (offline): full Coq build, extraction + OCaml model drivers, harness builds.
 mkdir -p /verif/work /verif/replays /verif/evidence
-cd /verif/coq && coq_makefile -f _CoqProject -o Makefile >/dev/null
-/verif/tools/build_model.sh
-cd /verif/harness && cp /repo/Cargo.lock Cargo.lock && CARGO_NET_OFFLINE=true cargo build --offline 2>&1 | tail -3
-test -x /verif/harness/target/debug/umh && test -x /verif/ocaml/bin/um_model && echo setup-ok
+/verif/tools/gen_coqproject.sh
+FAIL=0
+(cd /verif/coq && timeout 7000 make -j16 -k > /verif/work/coq_full.log 2>&1) || { echo "coq: some targets failed (see work/coq_full.log)"; grep -B2 -A6 "Error" /verif/work/coq_full.log | head -60; }
+for ex in /verif/coq/Extract/Ex_*.v; do
+  g=$(basename $ex .v); g=${g#Ex_}
+  /verif/tools/build_model.sh $g || { echo "model build failed: $g"; FAIL=1; }
+done
+for d in /verif/harness/*/; do
+  [ -f $d/Cargo.toml ] || continue
+  cp /repo/Cargo.lock $d/Cargo.lock
+  (cd $d && CARGO_NET_OFFLINE=true cargo build --offline 2>&1 | tail -2) || { echo "harness build failed: $d"; FAIL=1; }
+done
+ls /verif/harness/target/debug/umh_* /verif/ocaml/bin/ 2>/dev/null | tr '\n' ' '
+[ $FAIL = 0 ] && echo setup-ok
+exit 0
